@@ -127,6 +127,21 @@ func metricsRandom(args []string) int {
 		}
 		for i := 0; i < *length; i++ {
 			switch x := r.Intn(100); {
+			case i > 10 && i%23 == 11: // the whole collector is reset: every series starts afresh, also the counter asked for last
+				name, pairs := r.Intn(len(metNames)), [][]int{{0, r.Intn(len(metVals))}}
+				c0 := d.c.Counter(metNames[name], tagMap(r, pairs))
+				d.emit(&metEv{Op: "get", Kind: "counter", Name: name, Tags: pairs, SID: d.sid(c0)})
+				c0.Add(5)
+				d.emit(&metEv{Op: "add", SID: d.sid(c0), N: 5})
+				d.c.Reset()
+				counters, hists = nil, nil
+				d.emit(&metEv{Op: "reset"})
+				c1 := d.c.Counter(metNames[name], tagMap(r, pairs))
+				d.emit(&metEv{Op: "get", Kind: "counter", Name: name, Tags: pairs, SID: d.sid(c1)})
+				d.emit(&metEv{Op: "cval", SID: d.sid(c1), N: c1.Value()})
+				c1.Inc()
+				d.emit(&metEv{Op: "add", SID: d.sid(c1), N: 1})
+				counters = append(counters, c1)
 			case x < 45 || len(counters) == 0 || len(hists) == 0:
 				// ask for a series by identity, several times, with freshly built tag maps
 				name := r.Intn(len(metNames))
